@@ -41,4 +41,7 @@ CHECKS = {
  'C04': dict(engine='GEN+CIR', technique='overflowcheck template kernels compiled by the real Cython; both preprocessor arms of Overflow.c lowered to LLVM IR and encoded in z3 (bit-vectors); soundness/completeness/no-UB obligations discharged for all operand values, UF abstraction of shared multipliers, NIA lemmas for the division-based multiplication test; counterexamples replayed on native (and UBSan) builds',
              text='For each listed kernel (type x expression shape x fold setting x {__builtin_*_overflow arm, portable arm}) and every operand value: a normal return carries the exact result; every unrepresentable (sub)result or zero divisor raises OverflowError/ZeroDivisionError; no executed operation is undefined behaviour. Known findings (unchecked unary minus, MIN // -1 on types narrower than long) are reported as KNOWN-FINDING and excluded by input-space predicates.',
              note='Trusted: clang-14 + mem2reg, the IR->SMT translator, z3, SMT-LIB overflow predicates as the definition of "not representable" (64-bit multiplication). 64-bit symbolic x symbolic multiplication through the portable division-based arm is attempted in the thorough tier only.'),
+ 'C05': dict(engine='CIR', technique='TypeConversion.c CIntFromPy/CIntToPy as instantiated by the real compiler, lowered to LLVM IR and encoded in z3 over an arbitrary valid PyLongObject (symbolic lv_tag + 5 digits under the CPython representation invariant); both CYTHON_USE_PYLONG_INTERNALS arms; UB obligations; replay on a native build',
+             text='For each of 15 C integer types (incl. extern typedefs whose declared base differs from the real type) and every valid int object of <= 5 digits: value fits T => returned exactly with no error; otherwise OverflowError and -1; a failing __index__/__int__ propagates; C -> Python creates an int object with exactly the C value (sign/zero extension) for every value of T; no UB on any path.',
+             note='Trusted: clang + mem2reg, translator, z3, CPython 3.12 PyLong layout/invariant, documented contracts of PyLong_As*/PyLong_From* (stubs). Non-int arguments are modelled through a contract stub of __Pyx_PyNumber_Long.'),
 }
